@@ -71,6 +71,14 @@ Definition history_stale_map (ops : list hop) : bool := stale_map_at_init st0 op
 
 End RUN.
 
+(* a replacement symbol of some CSE init is also one of its input symbols *)
+Definition g_cse_shadow (ops : list hop) : bool :=
+  existsb (fun o => match o with
+                    | HInit xs _ (CseOk reps _) =>
+                        existsb (fun p => match index_of xs (fst p) 0 with Some _ => true | None => false end) reps
+                    | _ => false
+                    end) ops.
+
 (* ---- guard classes (syntactic) ---- *)
 Definition kids (e : expr) : list expr :=
   match e with
